@@ -30,12 +30,13 @@ type Case struct {
 	Kind     string // format | tcp | detect
 	Abridged bool
 	// message payloads are described compactly: length + fill seed (contents are deterministic)
-	Lens  []int
-	Seed  uint64
-	Code  *int32 // tcp: a 4-byte transport error frame follows the messages
-	Close string // tcp: "boundary" (orderly close after the stream), "mid" (inside the last message), "" (keep open)
-	Cuts  []int  // tcp: sizes of the TCP writes (a composition of the stream length; remainder in one write)
-	Back  []int  // tcp: lengths of plain messages the client then writes back
+	Lens      []int
+	Seed      uint64
+	Code      *int32 // tcp: a 4-byte transport error frame follows the messages
+	CodeFirst bool   `json:",omitempty"` // the error frame precedes the messages instead of following them
+	Close     string // tcp: "boundary" (orderly close after the stream), "mid" (inside the last message), "" (keep open)
+	Cuts      []int  // tcp: sizes of the TCP writes (a composition of the stream length; remainder in one write)
+	Back      []int  // tcp: lengths of plain messages the client then writes back
 	// CloseAfterWrite (tcp): right after its last write the client cancels its context and closes the transport, while
 	// the peer is slow to read: everything written still arrives, followed by a clean end of stream
 	CloseAfterWrite bool `json:",omitempty"`
@@ -211,7 +212,12 @@ func oracleTCP(c Case) (err error) {
 	if len(c.Lens) > 0 {
 		lastStart = len(stream) - len(frame(c.Abridged, ref.PlainPacket(0, exps[len(exps)-1].body)))
 	}
-	if c.Code != nil {
+	if c.Code != nil && c.CodeFirst {
+		// the server complains first (flood, unknown key) and goes on serving: everything behind the four bytes is still a message
+		pre := frame(c.Abridged, binary.LittleEndian.AppendUint32(nil, uint32(*c.Code)))
+		stream = append(append([]byte{}, pre...), stream...)
+		lastStart += len(pre)
+	} else if c.Code != nil {
 		stream = append(stream, frame(c.Abridged, binary.LittleEndian.AppendUint32(nil, uint32(*c.Code)))...)
 	}
 	if c.Close == "mid" && len(c.Lens) > 0 && c.Code == nil {
@@ -306,6 +312,25 @@ func oracleTCP(c Case) (err error) {
 	if c.Close == "mid" && c.Code == nil && nFull > 0 {
 		nFull--
 	}
+	readCode := func() error {
+		m, err := tr.ReadMsg()
+		var ec transport.ErrCode
+		if err == nil {
+			return fmt.Errorf("4-byte frame carrying %d delivered as a message (%d bytes)", *c.Code, len(m.GetMsg()))
+		}
+		if !errors.As(err, &ec) {
+			return fmt.Errorf("4-byte frame carrying %d surfaced as %T %v, want transport.ErrCode", *c.Code, err, err)
+		}
+		if int64(ec) != int64(*c.Code) {
+			return fmt.Errorf("4-byte frame carrying %d surfaced as ErrCode(%d)", *c.Code, int64(ec))
+		}
+		return nil
+	}
+	if c.Code != nil && c.CodeFirst {
+		if err := readCode(); err != nil {
+			return err
+		}
+	}
 	var kept []messages.Common
 	for i := 0; i < nFull; i++ {
 		m, err := tr.ReadMsg()
@@ -327,17 +352,9 @@ func oracleTCP(c Case) (err error) {
 			}
 		}
 	}()
-	if c.Code != nil {
-		m, err := tr.ReadMsg()
-		var ec transport.ErrCode
-		if err == nil {
-			return fmt.Errorf("4-byte frame carrying %d delivered as a message (%d bytes)", *c.Code, len(m.GetMsg()))
-		}
-		if !errors.As(err, &ec) {
-			return fmt.Errorf("4-byte frame carrying %d surfaced as %T %v, want transport.ErrCode", *c.Code, err, err)
-		}
-		if int64(ec) != int64(*c.Code) {
-			return fmt.Errorf("4-byte frame carrying %d surfaced as ErrCode(%d)", *c.Code, int64(ec))
+	if c.Code != nil && !c.CodeFirst {
+		if err := readCode(); err != nil {
+			return err
 		}
 	}
 	switch c.Close {
@@ -462,6 +479,9 @@ func record(c Case) {
 			if *c.Code < 0 {
 				cls = append(cls, "error-frame-negative")
 			}
+			if c.CodeFirst {
+				cls = append(cls, "error-frame-followed-by-messages")
+			}
 		}
 		if c.Close != "" {
 			cls = append(cls, "close:"+c.Close)
@@ -520,6 +540,12 @@ func gen(t *rapid.T) Case {
 			c.Code = &v
 		}
 		c.Close = rapid.SampledFrom([]string{"", "boundary", "boundary", "mid"}).Draw(t, "close")
+		if c.Code != nil && n > 0 && rapid.Bool().Draw(t, "codefirst") {
+			c.CodeFirst = true
+			if c.Close == "mid" {
+				c.Close = "boundary"
+			}
+		}
 		switch rapid.IntRange(0, 3).Draw(t, "cutstyle") {
 		case 0: // one byte at a time for the first bytes
 			k := rapid.IntRange(1, 600).Draw(t, "bytewise")
